@@ -5,6 +5,7 @@ import Uom.Proofs.DurationAcc
 import Uom.Proofs.BodyEq.Dur
 import Uom.Proofs.DurPowOracleSound
 import Uom.Proofs.TimOracleSound
+import Uom.Proofs.TextRoundTrip
 /-!
 # C14 — Time ↔ std Duration conversion is total, classified and accurate
 
@@ -150,32 +151,27 @@ theorem float_conversion_never_panics (f : Fmt) (hf : f.WF) (hp61 : f.p ≤ 61) 
 
 /-- the Duration oracle of the driver (`dur.class`, `dur.accuracy`: classification and "within 1 ns + 4u")
     never rejects the model in the second base unit (binary64), for every canonical value incl. NaN, ±∞,
-    negatives and values ≥ 2^64 s.  The one hypothesis is about *text*: that the printed `ok:<s>:<n>` reads
-    back as `(s, n)` (Lean 4.33 has no lemmas about `String.splitOn` / `toNat?` and the kernel cannot evaluate
-    them; the driver's own parse of its own print). -/
-theorem oracle_accepts_duration_f64 {v : Fl} (hc : Fl.Canonical b64 v)
-    (hrt : ∀ s n, durOfTimeFl b64 (Fl.one b64) (Fl.one b64) DurationAcc.cn64 v = .ok s n → DurPowOracleSound.OkTextRT s n)
-    (m : String) :
+    negatives and values ≥ 2^64 s.  No hypothesis is left: that the printed `ok:<s>:<n>` reads back as `(s, n)`
+    is proved too (`Proofs/TextRoundTrip.lean`: `splitOn ":"` characterised for every string, `toNat?` of `repr`). -/
+theorem oracle_accepts_duration_f64 {v : Fl} (hc : Fl.Canonical b64 v) (m : String) :
     DurPowOracleSound.NotProp (oracleDurFl b64 (Fl.one b64) (Fl.one b64) DurationAcc.cn64 v m
       (durOfTimeFl b64 (Fl.one b64) (Fl.one b64) DurationAcc.cn64 v).show) :=
-  DurPowOracleSound.oracleDurFl_sound_second_b64 hc hrt m
+  TextRoundTrip.oracleDurFl_sound_second_b64 hc m
 
 /-- in any *other* base unit (positive coefficients) the only thing the oracle can hold against the model is
     the recorded finding F4 — never a classification failure -/
 theorem oracle_rejects_model_only_for_F4 (f : Fmt) (hf : f.WF) (hp2 : 2 ≤ f.p) (hp61 : f.p ≤ 61) (fac cs cn v : Fl)
     (hcv : Fl.Canonical f v) (hfac : 0 < fac.toRat) (hcs : 0 < cs.toRat) (hsb : Fl.cmp fac cs ≠ some 0)
-    (hrt : ∀ s n, durOfTimeFl f fac cs cn v = .ok s n → DurPowOracleSound.OkTextRT s n) (tag why : String)
+    (tag why : String)
     (h : oracleDurFl f fac cs cn v (durOfTimeFl f fac cs cn v).show (durOfTimeFl f fac cs cn v).show = .prop tag why) :
-    tag = "dur.F4" := DurPowOracleSound.oracleDurFl_tag hf hp2 hp61 fac cs cn v hcv hfac hcs hsb hrt tag why h
+    tag = "dur.F4" := TextRoundTrip.oracleDurFl_tag hf hp2 hp61 fac cs cn v hcv hfac hcs hsb tag why h
 
 /-- the same for binary32 (the f32 nanosecond arithmetic is off by tens of nanoseconds for sub-second values,
     but always inside the oracle's `1 ns + 4u·t`: the error is at most `1 ns + u·t`) -/
-theorem oracle_accepts_duration_f32 {v : Fl} (hc : Fl.Canonical b32 v)
-    (hrt : ∀ s n, durOfTimeFl b32 (Fl.one b32) (Fl.one b32) DurationAcc.cn32 v = .ok s n → DurPowOracleSound.OkTextRT s n)
-    (m : String) :
+theorem oracle_accepts_duration_f32 {v : Fl} (hc : Fl.Canonical b32 v) (m : String) :
     DurPowOracleSound.NotProp (oracleDurFl b32 (Fl.one b32) (Fl.one b32) DurationAcc.cn32 v m
       (durOfTimeFl b32 (Fl.one b32) (Fl.one b32) DurationAcc.cn32 v).show) :=
-  TimOracleSound.oracleDurFl_sound_second_b32 hc hrt m
+  TextRoundTrip.oracleDurFl_sound_second_b32 hc m
 
 /-- **Duration → Time**: in the second base the model's result is finite for every real Duration and the
     oracle (`tim.accuracy`: within 8u of seconds + nanoseconds) answers `ok` on it — no hypothesis left, the
